@@ -91,6 +91,20 @@ var (
 	}
 )
 
+// yieldEverywhere: every function of the packages and files that hold the
+// shared tables and the concurrency primitives gets statement-level yields,
+// so that a logical race does not need to be in a function somebody thought
+// of listing.
+func yieldEverywhere(pkgPath, rel string) bool {
+	switch pkgPath {
+	case modPath + "/pkg/gi", modPath + "/pkg/generic":
+		return !strings.HasSuffix(rel, "/logger.go") && !strings.HasSuffix(rel, "/pkg.go")
+	case modPath:
+		return rel == "package.go" || rel == "scope.go" || rel == "hook.go" || rel == "funcinfo.go"
+	}
+	return false
+}
+
 type overlayJSON struct {
 	Replace map[string]string
 }
@@ -346,7 +360,11 @@ func (rw *rewriter) run() {
 					}
 				}
 				key += tn.Name.Name
-				switch yieldFuncs[key] {
+				mode := yieldFuncs[key]
+				if mode == "" && yieldEverywhere(rw.pkg.PkgPath, rw.rel) {
+					mode = "stmts"
+				}
+				switch mode {
 				case "entry":
 					entry[tn.Body] = true
 				case "stmts":
